@@ -1252,8 +1252,11 @@ _BTree_setstate(BTree *self, PyObject *state, int noval)
         }
         else
         {
+            /* A real type check: the pure-Python classes claim the C
+               classes as their __class__, which PyObject_IsInstance
+               believes; the child is about to be used as a C struct. */
             if (!(SameType_Check(self, v) ||
-                  PyObject_IsInstance(v, (PyObject *)leaftype)))
+                  PyObject_TypeCheck(v, leaftype)))
             {
                 PyErr_Format(PyExc_TypeError,
                              "tree child %s is neither %s nor %s",
@@ -1272,7 +1275,7 @@ _BTree_setstate(BTree *self, PyObject *state, int noval)
     if (!firstbucket)
         firstbucket = (PyObject *)self->data->child;
 
-    if (!PyObject_IsInstance(firstbucket, (PyObject *)leaftype))
+    if (!PyObject_TypeCheck(firstbucket, leaftype))
     {
         PyErr_SetString(PyExc_TypeError,
                         "No firstbucket in non-empty BTree");
